@@ -301,8 +301,88 @@ def shard_exotic(args):
     return acc.export()
 
 
+STYLES6 = ("bold", "dark", "italic", "underline", "blink", "invert")
+
+
+def shard_orders_and_prefix_texts(args):
+    """(a) the same attribute names given in different keyword ORDERS with different values, all rendered in one process, in both
+    sequences; (b) run texts that occur inside SGR sequences ("32", "1m", "[3", ";4" ...): the value rendered first, then every proper
+    slice of it rendered and displayed."""
+    tier, seed, idx = args
+    acc = Acc(seed=seed, sample_stride=997)
+    k = 0
+    for a in STYLES6:
+        for b in STYLES6:
+            if a == b:
+                continue
+            k += 1
+            if k % 8 != idx:
+                continue
+            for col in (None, ("fg", "red"), ("bg", "blue")):
+                variants = []
+                for va, vb in ((True, False), (False, True), (True, True)):
+                    for order in ((a, b), (b, a)):
+                        kw = {}
+                        vals = {a: va, b: vb}
+                        if col and order[0] == a:
+                            kw[col[0]] = col[1]
+                        for n_ in order:
+                            kw[n_] = vals[n_]
+                        if col and order[0] != a:
+                            kw[col[0]] = col[1]
+                        variants.append(kw)
+                for seq in (variants, variants[::-1], variants[1::2] + variants[::2]):
+                    for kw in seq:
+                        case = {"kind": "keyword_order", "runs": [["st", {x: y for x, y in kw.items()}]], "keyword_order": list(kw)}
+                        acc.case(True, key=("order", a, b, str(col), tuple(kw.items())), sample=case)
+                        check_value(acc, [("st", kw)], case, False)
+    from curtsies.formatstring import fmtstr
+
+    texts = ["32", "1m", "[3", ";4", "31m", "0m", "[1", "4;3", "m", "[", "39m", "44", "[0m", "1", "3", "\\x1b", "x1b[", "[32"]
+    for pi, kw in enumerate(PAL24):
+        if pi % 8 != idx:
+            continue
+        a_ = expected_atts(kw)
+        for t in texts:
+            f = fmtstr(t, **kw)
+            case = {"kind": "text_inside_sgr", "runs": [[t, kw]]}
+            acc.case(True, key=("inside", pi, t), sample=case)
+            whole = sgr.interpret(str(f))[0]
+            if whole != [(c, a_) for c in t]:
+                acc.failure("C01:formatting", case, "displayed %r" % (whole,))
+                continue
+            for i in range(len(t) + 1):
+                for j in range(i, len(t) + 1):
+                    for piece, label in ((lambda: f[i:j], "f[%d:%d]" % (i, j)), (lambda: f.width_aware_slice(slice(i, j)), "width_aware_slice(%d,%d)" % (i, j))):
+                        try:
+                            shown = sgr.interpret(str(piece()))[0]
+                        except Exception as ex:  # noqa
+                            acc.failure("C01:str_raises:" + type(ex).__name__, dict(case, op=label), repr(ex))
+                            continue
+                        acc.transitions += 1
+                        if shown != [(c, a_) for c in t[i:j]]:
+                            acc.failure("C01:derived_display_differs_from_runs", dict(case, op=label + " after the whole value was rendered"), "displayed %r expected %r" % (shown, [(c, a_) for c in t[i:j]]))
+    return acc.export()
+
+
+def twins(acc):
+    from mc import fresh
+
+    n, findings = fresh.twin_findings()
+    for _ in range(n):
+        acc.case(True)
+    acc.transitions += n
+    for kind, case, msg in findings:
+        acc.failure({"order_dependent": "C01:terminal_string_depends_on_what_was_rendered_before", "roundtrip": "C01:formatting", "terminal_meaning": "C01:formatting"}[kind], case, msg)
+
+
 def run(ctx):
     rep = Report()
+    acc = Acc(seed=ctx.seed)
+    twins(acc)
+    rep.merge(acc, "equal_but_distinguishable_attribute_values_in_fresh_processes")
+    for d in ctx.pmap(shard_orders_and_prefix_texts, [(ctx.tier, ctx.seed, i) for i in range(8)]):
+        rep.merge(d, "keyword_orders_and_texts_that_occur_inside_sgr_sequences")
     repeat.run_into(ctx, rep, "C01")
     for d in ctx.pmap(shard_exotic, [(ctx.tier, ctx.seed, i) for i in range(32)]):
         rep.merge(d, "long_and_exotic_values")
@@ -333,7 +413,7 @@ def run(ctx):
 
 def replay(ctx, case):
     acc = Acc()
-    if case.get("kind") in ("derived", "exotic"):
+    if case.get("kind") in ("derived", "exotic", "text_inside_sgr") or "style_colour_bool_int" in case:
         return []
     check_value(acc, [(t, k) for t, k in case["runs"]], case, use_pyte=False)
     return [(s, e["cases"][0]["message"]) for s, e in acc.fail.items()]
